@@ -26,6 +26,7 @@ CONSTANTS
   VetoPool,   \* subset of BOOLEAN : arm the vetoing entity constraint for the call
   OpSysPool,  \* subset of BOOLEAN : the call is made with ctx.GetSystemContext() derived from the transaction's context
   PrePool,    \* subset of {"ok", "fail"} : pre-commit actions to add
+  ChiefPool,  \* values of teams.chief tried on createTeam / updateTeam (NIL, ids); {NIL} when ChildFeatures is off
   WhereKinds, \* subset of {"all", "name", "grade"} : the filters DeleteWhere is called with
   CountPool,  \* counts for SetLinkCount
   MaxRc,      \* bound on a reference count (rcInc is not generated beyond it)
@@ -93,9 +94,24 @@ TxDeleteWhere(via, pred, osys) ==
   /\ Call(DeleteWhereOp(db, txn.sys \/ osys, via, pred, IdOrder), [op |-> "deleteWhere", a |-> [via |-> via, k |-> pred[1], v |-> pred[2], osys |-> osys]])
   /\ UNCHANGED ntx
 
-TxCreateTeam(t) ==
+TxCreateTeam(t, chief) ==
   /\ "createTeam" \in Ops /\ InTx
-  /\ Call(CreateTeamOp(db, t), [op |-> "createTeam", a |-> [id |-> t]])
+  /\ Call(CreateTeamOp(db, t, chief), [op |-> "createTeam", a |-> [id |-> t, chief |-> chief]])
+  /\ UNCHANGED ntx
+
+TxUpdateTeam(t, chief) ==
+  /\ "updateTeam" \in Ops /\ InTx /\ ChildFeatures
+  /\ Call(UpdateTeamOp(db, t, chief), [op |-> "updateTeam", a |-> [id |-> t, chief |-> chief]])
+  /\ UNCHANGED ntx
+
+\* the link collection registered on the child store, from either side
+TxLinksS(name, p, ts) ==
+  /\ name \in Ops /\ InTx /\ ChildFeatures
+  /\ Call(LinksS(db, name, p, ts), [op |-> name, a |-> [side |-> "staff", id |-> p, keys |-> ts]])
+  /\ UNCHANGED ntx
+TxLinksTS(name, t, ps) ==
+  /\ name \in Ops /\ InTx /\ ChildFeatures
+  /\ Call(LinksTS(db, name, t, ps), [op |-> name, a |-> [side |-> "squads", id |-> t, keys |-> ps]])
   /\ UNCHANGED ntx
 
 TxDeleteTeam(t, osys) ==
@@ -171,7 +187,9 @@ Next ==
         \E x \in (IF via = "staff" THEN Exts ELSE {DummyExt}) : TxUpdate(via, id, p, x, lt, f, veto, os)
   \/ \E via \in Vias, id \in Ids, veto \in VetoPool, os \in OpSysPool : TxDelete(via, id, veto, os)
   \/ \E via \in Vias, os \in OpSysPool : \E pr \in WherePool(via) : TxDeleteWhere(via, pr, os)
-  \/ \E t \in Teams : TxCreateTeam(t) \/ \E os \in OpSysPool : TxDeleteTeam(t, os)
+  \/ \E t \in Teams : (\E c \in ChiefPool : TxCreateTeam(t, c) \/ TxUpdateTeam(t, c)) \/ \E os \in OpSysPool : TxDeleteTeam(t, os)
+  \/ \E n \in {"addLinks", "removeLinks", "setLinks"}, p \in Ids, ts \in SUBSET Teams : TxLinksS(n, p, ts)
+  \/ \E n \in {"addLinks", "removeLinks", "setLinks"}, t \in Teams, ps \in SUBSET Ids : TxLinksTS(n, t, ps)
   \/ \E n \in {"addLinks", "removeLinks", "setLinks"}, p \in Ids, ts \in SUBSET Teams : TxLinks(n, p, ts)
   \/ \E n \in {"addLinks", "removeLinks", "setLinks"}, t \in Teams, ps \in SUBSET Ids : TxLinksT(n, t, ps)
   \/ \E n \in {"addLink", "removeLink"}, p \in Ids, t \in Teams : TxLink1(n, p, t)
